@@ -382,6 +382,12 @@ pub fn tick(kind: usize, a: (u32, u32), b: (u32, u32)) {
 thread_local! {
     static LAST_PANIC: RefCell<Option<(String, String)>> = const { RefCell::new(None) };
     static PANIC_QUIET: Cell<bool> = const { Cell::new(false) };
+    static PANIC_COUNT: Cell<u64> = const { Cell::new(0) };
+}
+
+/// number of panics raised on this thread so far (caught or not)
+pub fn panic_count() -> u64 {
+    PANIC_COUNT.with(|c| c.get())
 }
 
 /// Installs a process-wide hook that records (message, location) of panics raised on threads
@@ -389,6 +395,7 @@ thread_local! {
 pub fn install_panic_hook() {
     let default = std::panic::take_hook();
     std::panic::set_hook(Box::new(move |info| {
+        let _ = PANIC_COUNT.try_with(|c| c.set(c.get() + 1));
         let quiet = PANIC_QUIET.try_with(|c| c.get()).unwrap_or(false);
         if quiet {
             let _s = Suspend::new();
